@@ -6,7 +6,8 @@
 
 using namespace vsp;
 
-static const double TS[] = {0.0, 1e-9, 0.25, 0.5, 0.75, 1.0 - 1e-9, 1.0};
+static const std::vector<double> TS_QUICK = {0.0, 1e-9, 0.25, 0.5, 0.75, 1.0 - 1e-9, 1.0};
+static const std::vector<double> TS_THOROUGH = {0.0, 5e-324, 1e-300, 1e-16, 1e-9, 0.1, 0.25, 1.0 / 3, 0.5, 0.6180339887498949, 0.75, 0.9, 1.0 - 1e-9, 0.9999999999999999, 1.0};
 
 struct Ctx
 {
@@ -16,6 +17,10 @@ struct Ctx
     Ctx(SpaceCfg &cfg) : c(cfg)
     {
         auto &sp = c.space;
+        for (auto &l : c.lattice)
+            for (double d : l)
+                if (std::isfinite(d))
+                    magnitude = std::max(magnitude, std::fabs(d));
         o1 = sp->allocState();
         o2 = sp->allocState();
         o3 = sp->allocState();
@@ -28,9 +33,10 @@ struct Ctx
         for (auto *s : {o1, o2, o3, p, q1, q2})
             c.space->freeState(s);
     }
+    double magnitude = 0;  // largest |coordinate| of the lattice: results cannot be more precise than a few ulp of it
     double tolFor(double x) const
     {
-        return c.tol * (1 + std::fabs(x));
+        return c.tol * (1 + std::fabs(x)) + 16 * 2.220446049250313e-16 * magnitude;
     }
     std::string rj(const Coords &a, const Coords &b, double t, double u = -1) const
     {
@@ -50,6 +56,15 @@ struct Ctx
     {
         if (c.space->equalStates(x, y))
             return true;
+        if (c.headingOnly)
+        {
+            // Dubins / Reeds-Shepp: their distance is NOT continuous (two poses 1e-6 apart can be a full loop apart), so closeness of
+            // two results is closeness of the poses: position and heading
+            auto *p1 = x->as<ob::SE2StateSpace::StateType>(), *p2 = y->as<ob::SE2StateSpace::StateType>();
+            double dyaw = std::fabs(p1->getYaw() - p2->getYaw());
+            dyaw = std::min(dyaw, 2 * PI - dyaw);
+            return std::hypot(p1->getX() - p2->getX(), p1->getY() - p2->getY()) <= tolFor(scale) && dyaw <= tolFor(scale);
+        }
         // equalStates is exact (or 2 eps) in most spaces; the property is about the curve, so allow the law tolerance.
         // Symmetric distance evaluation (some spaces are not symmetric).
         double d = std::min(c.space->distance(x, y), c.space->distance(y, x));
@@ -66,7 +81,24 @@ struct Ctx
         if (t == 1.0 && !same(o1, b, dab))
             fail("C07|t1|" + c.name, "interpolate(a,b,1) = " + cstr(getCoords(sp, o1)) + " is not b", rj(ca, cb, t));
         if (!inBounds(o1))
-            fail("C07|bounds|" + c.name, "interpolate(a,b," + vf::jnum(t) + ") = " + cstr(getCoords(sp, o1)) + " violates the space bounds", rj(ca, cb, t));
+        {
+            // classify by cause: a box coordinate that overshoots its bound by <= 2 ulp at t = 1 (rounding of from + (to - from) * t)
+            // is kept apart from every other way of leaving the bounds
+            bool ulpOnly = t >= 0.9999999999999998 && !c.headingOnly;
+            if (ulpOnly)
+            {
+                sp->copyState(o2, o1);
+                sp->enforceBounds(o2);
+                Coords x = getCoords(sp, o1), y = getCoords(sp, o2);
+                for (size_t i = 0; i < x.size() && i < y.size(); ++i)
+                {
+                    double m = std::max(std::fabs(x[i]), std::fabs(y[i]));
+                    if (std::fabs(x[i] - y[i]) > 2 * (std::nextafter(m, INFINITY) - m))
+                        ulpOnly = false;
+                }
+            }
+            fail("C07|bounds|" + c.name + (ulpOnly ? "|one-ulp-overshoot-at-t1" : ""), "interpolate(a,b," + vf::jnum(t) + ") = " + cstr(getCoords(sp, o1)) + " violates the space bounds", rj(ca, cb, t));
+        }
         // aliasing: output aliases from / to
         sp->copyState(o2, a);
         sp->interpolate(o2, b, t, o2);
@@ -140,6 +172,9 @@ struct Ctx
 static void runSpace(const std::string &name, const vf::Args &a, vf::Report &rep)
 {
     SpaceCfg c = makeSpace(name, a.thorough() ? 3 : 2);
+    if (a.thorough())
+        densify(c, 240);
+    const std::vector<double> &TS = a.thorough() ? TS_THOROUGH : TS_QUICK;
     Pool P(c);
     Ctx X(c);
     X.fail = [&](const std::string &k, const std::string &w, const std::string &r) { rep.fail(k, w, r); };
